@@ -195,7 +195,7 @@ pub fn parse_link_destination(str: &str, start: usize, max: usize) -> Option<Par
                 }
                 Some('\\') => {
                     match chars.next() {
-                        None => return None,
+                        None | Some('\n') => return None,
                         Some(x) => pos += 1 + x.len_utf8(),
                     }
                 }
@@ -212,7 +212,7 @@ pub fn parse_link_destination(str: &str, start: usize, max: usize) -> Option<Par
                 Some('\0'..=' ' | '\x7f') | None => break,
                 Some('\\') => {
                     match chars.next() {
-                        Some(' ') | None => break,
+                        Some('\0'..=' ' | '\x7f') | None => break,
                         Some(x) => pos += 1 + x.len_utf8(),
                     }
                 }
@@ -275,7 +275,10 @@ pub fn parse_link_title(str: &str, start: usize, max: usize) -> Option<ParseLink
             Some('\\') => {
                 match chars.next() {
                     None => return None,
-                    Some(x) => pos += 1 + x.len_utf8(),
+                    Some(x) => {
+                        if x == '\n' { lines += 1; }
+                        pos += 1 + x.len_utf8();
+                    }
                 }
             }
             Some(x) => {
